@@ -376,7 +376,7 @@ struct Bus {
 			case MSG_CS_POM: set(MSG_CS_POM_ACK, {D(0), D(1), D(2), D(3), D(4), 1}); break;
 			case MSG_CS_RCPLUS: set(MSG_CS_RCPLUS_ACK, {D(0), 0, 0, 0, 0, 0, 0}); break;
 			case MSG_CS_PROG: set(MSG_CS_PROG_STATE, {0, 0, D(1), D(2), D(3)}); break;
-			case MSG_SYS_RESET: for (auto &x : nodes) { x.tx_seq = 1; x.tab_iter = 0; x.feat_iter = 0; x.enum_active = x.enum_dirty = false; } break;
+			case MSG_SYS_RESET: for (auto &x : nodes) { x.tx_seq = 1; x.tab_iter = 0; x.feat_iter = 0; x.enum_active = x.enum_dirty = false; x.tab_version = 1; } break;   // (the table version starts over as well)
 			default: break;
 		}
 		return a;
